@@ -1,4 +1,5 @@
 """Operations and oracles of engine L (kept apart from the executor skeleton)."""
+import contextlib
 import copy
 import errno
 import gc
@@ -1167,9 +1168,11 @@ def read_sd(rec, weights_only=True):
 
     if rec["ser"] == "direct":
         return dict(rec["sd_obj"])  # the very tensors model.state_dict() returned, handed over in memory
+    if rec["ser"] == "held" and rec.get("sd_obj") is not None:
+        return dict(rec["sd_obj"])  # a checkpoint read once and kept by the caller: every load gets the same tensors
     if rec["ser"] == "safetensors":
         return safe_load(rec["path"])
-    if rec["ser"] == "pickle_bytes":
+    if rec["ser"] in ("pickle_bytes", "held"):
         return torch.load(io.BytesIO(rec["bytes"]), weights_only=weights_only)
     return torch.load(rec["path"], weights_only=weights_only)
 
@@ -1235,7 +1238,7 @@ def do_save(w, d, op, p):
     try:
         if ser == "direct":
             rec["sd_obj"] = sd
-        elif ser == "pickle_bytes":
+        elif ser in ("pickle_bytes", "held"):
             b = io.BytesIO()
             write_sd(w, sd, ser, b)
             rec["bytes"] = b.getvalue()
@@ -1246,7 +1249,7 @@ def do_save(w, d, op, p):
         w.violate("C10", "save_raises", "save", {"ser": ser, "exc": type(e).__name__, "at": quanto_site(e)}, repr(e)[:400], p)
         return "error"
     # (b) load . save is the identity on state_dicts
-    for wo in ([True, False] if ser not in ("safetensors", "direct") else [True]):
+    for wo in ([True, False] if ser not in ("safetensors", "direct", "held") else [True]):
         try:
             back = read_sd(rec, weights_only=wo)
         except Exception as e:
@@ -1267,6 +1270,9 @@ def do_save(w, d, op, p):
             w.violate("C10", "resave_equal", "save", {"target": d.origin, "issue": what, "src_frozen": src["frozen"]}, det, p)
         else:
             w.probe("resave_equal_checked")
+    if ser == "held":
+        rec["sd_obj"] = torch.load(io.BytesIO(rec["bytes"]), weights_only=True)
+        w.probe("checkpoint_read_once_and_kept")
     rec.update(
         snap=snap,
         stamp=d.stamp,
@@ -1342,7 +1348,7 @@ def do_load(w, op, p):
     held_before = {fid: sd_snapshot(o["sd_obj"]) for fid, o in w.files.items() if o.get("sd_obj") is not None}
     # load_state_dict(assign=True) makes the target share the tensors of the dict by torch's own definition; with
     # a dict handed over in memory those are the source model's tensors, so later writes are shared by design
-    assign = bool(op.get("assign")) and rec["ser"] != "direct"
+    assign = bool(op.get("assign")) and rec["ser"] not in ("direct", "held")
     into = w.deps.get(op.get("into")) if op.get("into") is not None else None
     if into is not None and (into.broken or into.model is None or not into.quantized or json.dumps(into.arch, sort_keys=True) != json.dumps(rec["arch"], sort_keys=True)):
         into = None
@@ -1370,7 +1376,7 @@ def do_load(w, op, p):
             if q.get("filter") is not None:
                 kwargs["modules"] = [model.get_submodule(x) for x in q["filter"]]
             quantize(model, **kwargs)
-            if rec["ser"] == "direct":
+            if rec["ser"] in ("direct", "held"):
                 # assigning the source model's own tensors would make the two models one (torch's definition of
                 # assign=True): the in-memory dict is copied first, as a caller who wants two models does
                 sd = {k: (v.detach().clone() if isinstance(v, torch.Tensor) else copy.deepcopy(v)) for k, v in sd.items()}
@@ -1613,7 +1619,9 @@ def do_train(w, d, op, p):
     out = None
     detached = False
     try:
-        with torch.enable_grad():
+        # no grad-mode block of the harness' own: training runs in the process' ambient grad mode, as a caller's does
+        # (a block would put back whatever an earlier call had left switched off)
+        with contextlib.nullcontext():
             outs, grads = [], []
             xs = [x]
             if op.get("input2"):
@@ -1808,3 +1816,53 @@ def do_set_trainable(w, d, op, p):
     if n:
         w.probe("requires_grad_switched:" + ("w" if op.get("weights", True) else "-") + ("b" if op.get("biases", True) else "-"))
     return "ok" if n else "skipped"
+
+
+def do_bad_call(w, d, op, p):
+    """A call the library refuses (documented ValueError) or that fails in torch (wrong input width), made by a caller
+    who catches the error and carries on. Nothing is wrapped around the call - no grad-mode block, no injector - so
+    that whatever the failing call leaves behind in the process stays there for the operations that follow."""
+    from optimum.quanto import MaxOptimizer, qint4, qint8
+    from optimum.quanto.tensor import quantize_activation, quantize_weight
+
+    kind = op["kind"]
+    before = R.ambient_snapshot()
+    sdig = None
+    exc = None
+    try:
+        if kind == "group":
+            t = archs.gen_payload((16, 64), torch.float32, op.get("seed", 1), "noise", 1.0)
+            quantize_weight(t, qint4, 0, 48)  # 48 does not divide 64
+        elif kind == "optimizer":
+            t = archs.gen_payload((8, 32), torch.float32, op.get("seed", 1), "noise", 1.0)
+            quantize_weight(t, qint8, 0, None, MaxOptimizer())  # an affine optimizer for a symmetric qtype
+        elif kind == "scale":
+            t = archs.gen_payload((4, 8), torch.float32, op.get("seed", 1), "noise", 1.0)
+            quantize_activation(t, qint8, torch.ones(4, 1))  # activations take a scalar scale
+        elif kind == "shape":
+            if d is None or d.model is None or d.broken or w.depth > 0:
+                return "skipped"
+            sdig = R.state_digest(d.model)
+            x = archs.gen_payload((2,) + tuple(int(n) + 3 for n in d.in_shape), DTYPES[d.dtype], op.get("seed", 1), "noise", 1.0)
+            remove_observers(d)
+            try:
+                d.model(x)
+            finally:
+                install_observers(d)
+        else:
+            return "skipped"
+    except (InjectedFault, InjectedInterrupt):
+        raise
+    except Exception as e:
+        exc = e
+    w.probe("refused_call:" + kind + (":raised" if exc is not None else ":accepted"))
+    w.judged("C13")
+    diff = R.ambient_diff(before, R.ambient_snapshot())
+    if diff:
+        w.violate("C13", "restoration", "bad_call", {"tables": ",".join(sorted(diff)), "kind": kind}, f"process-wide state differs after a call that raised {type(exc).__name__ if exc is not None else 'nothing'}: {diff}", p)
+        if w.focus("C13"):
+            w.restore_ambient(before)
+            torch.set_grad_enabled(before["grad_enabled"])
+    if sdig is not None and R.state_digest(d.model) != sdig:
+        w.violate("C13", "readonly_forward", "bad_call", {"issue": "state_changed", "kind": kind}, "a forward that failed outside any context changed the model's state", p)
+    return "raised:" + type(exc).__name__ if exc is not None else "accepted"
